@@ -276,7 +276,7 @@ def r4_classification(ctx):
     insts = Obj('qtyping:TensorTransformationInsts', {'tensor_name': 't', 'subgraph_id': 0, 'instructions': [
         Obj(TI, {'transformation': QT[a], 'tensor_id': 1, 'producer': 0, 'consumers': [1], 'parameters': None}),
         Obj(TI, {'transformation': QT[b], 'tensor_id': 1, 'producer': 0, 'consumers': [2], 'parameters': None})]})
-    outs = it.outcomes(cv, [Obj('x:self', {}), insts])
+    outs = it.outcomes(cv, [Obj(cv.cls.fq if cv.cls is not None else 'x:self', {}), insts])
     raised = any(o.kind == 'raise' for o in outs)
     want = {effect[a], effect[b]} == {'float', 'quantized'} and 'NO_QUANTIZE' in (a, b)
     ctx.check(R, raised == want, cv.node, cv, f'instructions [{a}, {b}]',
